@@ -1,5 +1,296 @@
 package main
 
-import "verifharness/internal/hx"
+import (
+	"bytes"
+	"crypto/ed25519"
+	"encoding/pem"
+	"io"
+	"os"
+	"path/filepath"
+	"strings"
 
-func c39(c *hx.Ctx) { panic("todo") }
+	"github.com/aperturerobotics/bifrost/crypto"
+	"github.com/aperturerobotics/bifrost/keypem"
+	"github.com/aperturerobotics/bifrost/keypem/keyfile"
+	"github.com/aperturerobotics/bifrost/peer"
+	"github.com/sirupsen/logrus"
+	"verifharness/internal/hx"
+)
+
+// expectation classes of the property text
+const (
+	expNewKey = iota // missing: a new key is generated, written, and reloads to the same identity
+	expError         // unreadable / empty / non-key: an error
+	expStored        // valid key file: that key
+	expWriteFails    // missing but not writable: an error (a key may accompany it)
+)
+
+type kfScenario struct {
+	name  string
+	exp   int
+	setup func(c *hx.Ctx, dir string, stored crypto.PrivKey) (path string, st string)
+}
+
+func writeFile(p string, b []byte) {
+	if err := os.WriteFile(p, b, 0o600); err != nil {
+		panic(err)
+	}
+}
+
+func fFile(b []byte) string { return hx.App("FFile", hx.Bytes(b)) }
+
+func kfScenarios() []kfScenario {
+	file := func(name string, exp int, content func(c *hx.Ctx, stored crypto.PrivKey) []byte) kfScenario {
+		return kfScenario{name: name, exp: exp, setup: func(c *hx.Ctx, dir string, stored crypto.PrivKey) (string, string) {
+			p := filepath.Join(dir, "key.pem")
+			b := content(c, stored)
+			writeFile(p, b)
+			return p, fFile(b)
+		}}
+	}
+	privPem := func(k crypto.PrivKey) []byte { b, _ := keypem.MarshalPrivKeyPem(k); return b }
+	marsh := func(k crypto.PrivKey) []byte { b, _ := crypto.MarshalPrivateKey(k); return b }
+	return []kfScenario{
+		{name: "missing", exp: expNewKey, setup: func(c *hx.Ctx, dir string, _ crypto.PrivKey) (string, string) {
+			return filepath.Join(dir, "key.pem"), "FMissing"
+		}},
+		{name: "missing-dangling-symlink", exp: expNewKey, setup: func(c *hx.Ctx, dir string, _ crypto.PrivKey) (string, string) {
+			p := filepath.Join(dir, "link.pem")
+			if err := os.Symlink(filepath.Join(dir, "target.pem"), p); err != nil {
+				panic(err)
+			}
+			return p, "FMissing"
+		}},
+		{name: "missing-parent", exp: expWriteFails, setup: func(c *hx.Ctx, dir string, _ crypto.PrivKey) (string, string) {
+			return filepath.Join(dir, "no-such-dir", "key.pem"), "FMissing"
+		}},
+		{name: "missing-empty-path", exp: expWriteFails, setup: func(c *hx.Ctx, dir string, _ crypto.PrivKey) (string, string) {
+			return "", "FMissing"
+		}},
+		file("empty", expError, func(*hx.Ctx, crypto.PrivKey) []byte { return nil }),
+		file("garbage", expError, func(c *hx.Ctx, _ crypto.PrivKey) []byte {
+			return [][]byte{[]byte("garbage"), []byte("\n"), c.RandBytes(1 + c.Rng.Intn(60)), []byte("-----BEGIN LIBP2P PRIVATE KEY-----\n"), []byte("-----BEGIN")}[c.Rng.Intn(5)]
+		}),
+		file("pem-wrong-type", expError, func(c *hx.Ctx, k crypto.PrivKey) []byte {
+			return pem.EncodeToMemory(&pem.Block{Type: []string{"RSA PRIVATE KEY", "PRIVATE KEY", "libp2p private key", "CERTIFICATE"}[c.Rng.Intn(4)], Bytes: marsh(k)})
+		}),
+		file("pem-public-key", expError, func(c *hx.Ctx, k crypto.PrivKey) []byte {
+			b, _ := keypem.MarshalPubKeyPem(k.GetPublic())
+			return b
+		}),
+		file("pem-garbage-body", expError, func(c *hx.Ctx, k crypto.PrivKey) []byte {
+			body := [][]byte{nil, c.RandBytes(1 + c.Rng.Intn(40)), marsh(k)[:10+c.Rng.Intn(50)], cat(pbVarint(1, 0), pbBytes(2, rawPriv(k))), cat(pbVarint(1, 1), pbBytes(2, rawPriv(k)[:63]))}[c.Rng.Intn(5)]
+			return pem.EncodeToMemory(&pem.Block{Type: keypem.PrivPemType, Bytes: body})
+		}),
+		file("pem-truncated", expError, func(c *hx.Ctx, k crypto.PrivKey) []byte {
+			b := privPem(k)
+			return b[:1+c.Rng.Intn(len(b)-20)]
+		}),
+		file("valid", expStored, func(c *hx.Ctx, k crypto.PrivKey) []byte { return privPem(k) }),
+		file("valid-96-byte-form", expStored, func(c *hx.Ctx, k crypto.PrivKey) []byte {
+			return pem.EncodeToMemory(&pem.Block{Type: keypem.PrivPemType, Bytes: cat(pbVarint(1, 1), pbBytes(2, cat(rawPriv(k), rawPub(k.GetPublic()))))})
+		}),
+		file("valid-with-surrounding-text", expStored, func(c *hx.Ctx, k crypto.PrivKey) []byte {
+			return cat([]byte("# my key\n"), privPem(k), []byte("trailing\n"))
+		}),
+		{name: "directory", exp: expError, setup: func(c *hx.Ctx, dir string, _ crypto.PrivKey) (string, string) {
+			p := filepath.Join(dir, "key.pem")
+			if err := os.Mkdir(p, 0o755); err != nil {
+				panic(err)
+			}
+			return p, "FReadErr"
+		}},
+		{name: "below-regular-file", exp: expError, setup: func(c *hx.Ctx, dir string, _ crypto.PrivKey) (string, string) {
+			writeFile(filepath.Join(dir, "plain"), []byte("x"))
+			return filepath.Join(dir, "plain", "key.pem"), "FStatErr" // ENOTDIR
+		}},
+		{name: "symlink-loop", exp: expError, setup: func(c *hx.Ctx, dir string, _ crypto.PrivKey) (string, string) {
+			p := filepath.Join(dir, "loop.pem")
+			if err := os.Symlink(p, p); err != nil {
+				panic(err)
+			}
+			return p, "FStatErr" // ELOOP
+		}},
+		{name: "name-too-long", exp: expError, setup: func(c *hx.Ctx, dir string, _ crypto.PrivKey) (string, string) {
+			return filepath.Join(dir, strings.Repeat("k", 300)), "FStatErr" // ENAMETOOLONG
+		}},
+		{name: "nul-in-path", exp: expError, setup: func(c *hx.Ctx, dir string, _ crypto.PrivKey) (string, string) {
+			return filepath.Join(dir, "a\x00b"), "FStatErr" // EINVAL
+		}},
+		{name: "unreadable-file", exp: expError, setup: func(c *hx.Ctx, dir string, k crypto.PrivKey) (string, string) {
+			p := filepath.Join(dir, "key.pem")
+			b, _ := keypem.MarshalPrivKeyPem(k)
+			writeFile(p, b)
+			if err := os.Chmod(p, 0); err != nil {
+				panic(err)
+			}
+			return p, "FReadErr"
+		}},
+		{name: "unsearchable-parent", exp: expError, setup: func(c *hx.Ctx, dir string, k crypto.PrivKey) (string, string) {
+			d := filepath.Join(dir, "locked")
+			if err := os.Mkdir(d, 0o755); err != nil {
+				panic(err)
+			}
+			b, _ := keypem.MarshalPrivKeyPem(k)
+			writeFile(filepath.Join(d, "key.pem"), b)
+			if err := os.Chmod(d, 0); err != nil {
+				panic(err)
+			}
+			return filepath.Join(d, "key.pem"), "FStatErr" // EACCES
+		}},
+	}
+}
+
+type kfObs struct {
+	panicked bool
+	key      crypto.PrivKey
+	err      error
+}
+
+func kfCall(path string, withLog bool) kfObs {
+	var le *logrus.Entry
+	if withLog {
+		l := logrus.New()
+		l.SetOutput(io.Discard)
+		l.SetLevel(logrus.DebugLevel)
+		le = logrus.NewEntry(l)
+	}
+	var o kfObs
+	o.panicked, _ = hx.Catch(func() { o.key, o.err = keyfile.OpenOrWritePrivKey(le, path) })
+	return o
+}
+
+// kfRecord emits the case for one call and applies the state-independent oracle clauses.
+func kfRecord(c *hx.Ctx, desc map[string]any, st string, before []byte, hadFile bool, path string, writeOK bool, o kfObs) (after []byte, changed bool) {
+	pr := "None"
+	if hadFile {
+		pr = pemRes(before)
+	}
+	after, rerr := os.ReadFile(path)
+	afterTerm := "AUnchanged"
+	if rerr == nil && (!hadFile || !bytes.Equal(after, before)) {
+		changed = true
+		afterTerm = hx.App("AFile", pemRes(after))
+	}
+	gen := "None"
+	if strings.HasPrefix(st, "FMissing") && o.key != nil {
+		gen = hx.Opt(true, hx.Bytes(rawPriv(o.key)))
+	}
+	c.Case(hx.App("KF", st, pr, gen, hx.Bool(writeOK), hx.Bool(o.panicked),
+		optKey(o.key != nil, rawPriv(o.key)), hx.Bool(o.err != nil), afterTerm), desc)
+	if o.panicked {
+		c.Failf("keyfile-panic", desc, "OpenOrWritePrivKey panicked")
+		return after, changed
+	}
+	if o.key == nil && o.err == nil {
+		c.Failf("keyfile-nil-nil", desc, "OpenOrWritePrivKey returned neither a key nor an error")
+	}
+	if o.err == nil && o.key != nil {
+		var id peer.ID
+		var ierr error
+		p, _ := hx.Catch(func() { id, ierr = peer.IDFromPrivateKey(o.key) })
+		if p || ierr != nil || id == "" || len(rawPriv(o.key)) != ed25519.PrivateKeySize {
+			c.Failf("keyfile-unusable-key", desc, "returned key has no usable identity (panic=%v err=%v)", p, ierr)
+		}
+	}
+	return after, changed
+}
+
+func c39(c *hx.Ctx) {
+	c.Type = "c39_case"
+	c.Agree = "c39_agree"
+	c.Rule = "real temporary directories in every file state: missing (plain, dangling symlink, missing parent, empty path), empty, garbage, PEM of the wrong type, public-key PEM, private PEM with a body that is not a key, truncated PEM, valid key (64- and 96-byte forms, surrounded by text), directory at the path, path below a regular file (ENOTDIR), symlink loop, over-long name, NUL in path, and as non-root chmod 000 file / parent; every call followed by a reload; non-trivial = distinct call returning a key"
+	scen := kfScenarios()
+	root := os.Geteuid() == 0
+	if err := os.MkdirAll(c.Out, 0o755); err != nil {
+		panic(err)
+	}
+	base, err := os.MkdirTemp(c.Out, "kf")
+	if err != nil {
+		panic(err)
+	}
+	defer os.RemoveAll(base)
+	skipped := map[string]int{}
+	for i := 0; i < c.N; i++ {
+		s := scen[i%len(scen)]
+		if root && (s.name == "unreadable-file" || s.name == "unsearchable-parent") {
+			skipped[s.name]++ // chmod 000 does not stop root; the same model states are reached by directory / ENOTDIR
+			continue
+		}
+		dir, err := os.MkdirTemp(base, "d")
+		if err != nil {
+			panic(err)
+		}
+		stored, _, _ := crypto.GenerateEd25519Key(bytes.NewReader(c.RandBytes(32)))
+		path, st := s.setup(c, dir, stored)
+		before, berr := os.ReadFile(path)
+		hadFile := berr == nil
+		c.Class(s.name)
+		writeOK := s.exp == expNewKey
+		desc := map[string]any{"kind": "keyfile", "state": s.name, "path_rel": strings.TrimPrefix(path, dir), "content": hx.Hex(before)}
+		o := kfCall(path, i%2 == 0)
+		after, changed := kfRecord(c, desc, st, before, hadFile, path, writeOK, o)
+		if o.panicked {
+			continue
+		}
+		switch s.exp {
+		case expNewKey:
+			if o.err != nil || o.key == nil {
+				c.Failf("keyfile-missing-no-key", desc, "missing file: key=%v err=%v", o.key != nil, o.err)
+				break
+			}
+			c.Nontrivial("new" + hx.Hex(rawPriv(o.key)))
+			if !changed {
+				c.Failf("keyfile-not-written", desc, "missing file: a key was returned but nothing was written")
+				break
+			}
+			// reload: same peer identity
+			o2 := kfCall(path, i%2 == 1)
+			d2 := map[string]any{"kind": "keyfile-reload", "state": s.name, "content": hx.Hex(after)}
+			kfRecord(c, d2, fFile(after), after, true, path, false, o2)
+			id1, _ := peer.IDFromPrivateKey(o.key)
+			if o2.panicked || o2.err != nil || o2.key == nil {
+				c.Failf("keyfile-reload-fails", d2, "reload of the written key failed: %v", o2.err)
+			} else if id2, _ := peer.IDFromPrivateKey(o2.key); id2 != id1 || !o2.key.Equals(o.key) {
+				c.Failf("keyfile-reload-differs", d2, "reload gives peer id %s, generated key had %s", id2.String(), id1.String())
+			}
+			if fi, err := os.Stat(path); err == nil && fi.Mode().Perm() != 0o600 {
+				c.Extra["mode-not-0600"] = fi.Mode().String()
+			}
+		case expError:
+			if o.err == nil {
+				c.Failf("keyfile-bad-file-no-error", desc, "state %s must be reported as an error (key returned: %v)", s.name, o.key != nil)
+			}
+			if changed {
+				c.Failf("keyfile-overwrites-bad-file", desc, "state %s: the path was (over)written", s.name)
+			}
+		case expStored:
+			if o.err != nil || o.key == nil {
+				c.Failf("keyfile-valid-rejected", desc, "valid key file rejected: %v", o.err)
+				break
+			}
+			c.Nontrivial("stored" + hx.Hex(rawPriv(o.key)))
+			if !o.key.Equals(stored) {
+				c.Failf("keyfile-valid-differs", desc, "loaded key differs from the stored key")
+			}
+			if changed {
+				c.Failf("keyfile-overwrites-valid-file", desc, "valid key file was modified")
+			}
+		case expWriteFails:
+			if o.err == nil {
+				c.Failf("keyfile-write-failure-hidden", desc, "the key could not be written but no error was returned")
+			}
+		}
+		// restore permissions so that the directory can be removed
+		_ = filepath.Walk(dir, func(p string, info os.FileInfo, err error) error {
+			if err == nil {
+				_ = os.Chmod(p, 0o755)
+			}
+			return nil
+		})
+		_ = os.Chmod(filepath.Join(dir, "locked"), 0o755)
+		_ = os.RemoveAll(dir)
+	}
+	c.Extra["running_as_root"] = root
+	c.Extra["skipped_permission_scenarios"] = skipped
+}
